@@ -328,6 +328,12 @@ func VP_C15_tokeninfo() {
 			leak = vpOr(leak, string(w.body[i:i+2]) == sub)
 		}
 		vpAssert(!leak, "refusal-body-does-not-carry-the-subject")
+		for _, lv := range vpMetricLabels {
+			for i := 0; i+2 <= len(lv); i++ {
+				leak = vpOr(leak, lv[i:i+2] == sub)
+			}
+		}
+		vpAssert(!leak, "published-metrics-do-not-carry-the-subject-of-a-refused-token")
 		vpAssert(vpUICalls == 1 && vpUITok == tok, "verifier-sees-the-presented-token")
 	default:
 		vpReach("ok")
